@@ -26,8 +26,8 @@ ASSUMPTIONS = [
     "Props/C19.lean takes the representation-independence of the value-level functions as an explicit hypothesis structure "
     "(RepIndep); Props/C19g.lean proves it for Model/Curve.lean on the subgroup <G> of odd order n (N2T holds there; K1 is "
     "outside), leaving p prime, n odd, n*G = 0",
-    "mul_add / Public_key.verifies and arithmetic on two legacy Points are modelled, corresponded and searched but are not "
-    "in the Covered set of step_refines",
+    "step_refines covers all 24 modelled operations (incl. mul_add and verifies) except arithmetic whose operands are all "
+    "legacy Points (immutable objects, no hidden state); those are corresponded and searched only",
 ]
 
 TOY_PRIME = [(11, 1, 6, (2, 4), 13), (23, 1, 4, (0, 2), 29), (1009, 0, 11, (1, 298), 967), (13, 2, 4, None, None), (17, 1, 3, None, None)]
